@@ -89,6 +89,7 @@ func MapIter[M ~map[K]V, K comparable, V any](site string, m M) []MapEntry[K, V]
 	if e := E; e != nil && e.cfg.MapMenu && !e.poisoned && len(keys) > 1 {
 		keys = applyOrder(keys, e.choose(KMap, orderAlternatives(len(keys))))
 	}
+	keys = applyPolicy(site, keys)
 	out := make([]MapEntry[K, V], len(keys))
 	for i, k := range keys {
 		out[i] = MapEntry[K, V]{m, k}
@@ -103,5 +104,46 @@ func ReflectMapKeys(site string, v reflect.Value) []reflect.Value {
 	if e := E; e != nil && e.cfg.MapMenu && !e.poisoned && len(keys) > 1 {
 		keys = applyOrder(keys, e.choose(KMap, orderAlternatives(len(keys))))
 	}
-	return keys
+	return applyPolicy(site, keys)
+}
+
+// Site-keyed iteration policies: MapPolicy[siteKey] selects, for every visit of that site, one of
+// the generic reorderings below (0 sorted, 1 reversed, 2 rotated by one, 3 rotated by two, 4 first two swapped).
+// Unlike sequence-indexed choices they do not depend on the order in which sites are visited.
+var MapPolicy map[string]int
+
+// MapSeen, when non-nil, records the largest key count seen per site.
+var MapSeen map[string]int
+
+const MapPolicyAlternatives = 4
+
+func applyPolicy[T any](site string, keys []T) []T {
+	if MapSeen == nil && MapPolicy == nil {
+		return keys
+	}
+	k := SiteKey(site)
+	if MapSeen != nil && len(keys) > MapSeen[k] {
+		MapSeen[k] = len(keys)
+	}
+	alt := MapPolicy[k]
+	n := len(keys)
+	if alt == 0 || n < 2 {
+		return keys
+	}
+	out := make([]T, n)
+	switch alt {
+	case 1:
+		for i := range keys {
+			out[i] = keys[n-1-i]
+		}
+	case 2, 3:
+		r := alt - 1
+		for i := range keys {
+			out[i] = keys[(i+r)%n]
+		}
+	default:
+		copy(out, keys)
+		out[0], out[1] = out[1], out[0]
+	}
+	return out
 }
